@@ -9,9 +9,15 @@
                                                                              | init-ok not-delivered [v=NN]
                                                                              | na            (cell outside the matrix)
         the MODEL's outcome (Ipfix.TLS.session, configurations from Generated.TLS)
+    tls resume <transport> <peer> <first> <second>                          -> <outcome of exporter A> ; <outcome of exporter B> | na
+        two exporters of one process, one after the other, towards the same collector whose certificate is issued
+        by ca1 (Ipfix.TLS.resume: each outcome is the model's outcome of that exporter's own configuration);
+        <first>/<second> = <ca1|ca2>-<servername>; tls: <peer> = real | srv12 | srv13, dtls: <peer> = srv12 (raw pion server)
     tls facts                                                               -> ok <summary of the configurations the model reads off the facts>
     chk tls cell <...> | <implementation's observation>                     -> holds | fails <why> | na
         Spec.C18.holdsOn evaluated on the implementation's observation
+    chk tls resume <...> | <observation of A> ; <observation of B>          -> holds | fails <why> | na
+        Spec.C18.holdsOnResume evaluated on the implementation's observations
 
     <transport>  tls | dtls
     <servercert> trusted | otherca | selfsigned | expired | notyet | wrongsan | nosan
@@ -51,6 +57,32 @@ def parseCell (a : List String) : Option Cell :=
     pure { transport := t, serverCert := sc, serverName := sn, clientCert := cc, clientCA := ca, peer := p }
   | _ => none
 
+def tblTransport : List (String × Transport) := [("tls", .tls), ("dtls", .dtls)]
+def tblServerName : List (String × ServerNameKind) :=
+  [("unset", .unset), ("dns", .dns), ("ip", .ip), ("baddns", .badDns), ("badip", .badIp)]
+def tblPeer : List (String × Peer) :=
+  [("real", .real), ("srv11", .srv11), ("srv12", .srv12), ("srv13", .srv13), ("cli11", .cli11), ("cli12", .cli12),
+   ("cli13", .cli13), ("plainsrv", .plainSrv), ("plaincli", .plainCli), ("rawplaincli", .rawPlainCli)]
+
+/-- `<ca1|ca2>-<servername>` -/
+def parseTrust (tok : String) : Option ExporterTrust :=
+  match tok.splitOn "-" with
+  | [ca, sn] => do
+    let ca ← lookup [("ca1", TrustKind.ca1), ("ca2", .ca2)] ca
+    let sn ← lookup tblServerName sn
+    pure { ca := ca, serverName := sn }
+  | _ => none
+
+def parseResume (a : List String) : Option Resume :=
+  match a with
+  | [t, p, f, s] => do
+    let t ← lookup tblTransport t
+    let p ← lookup tblPeer p
+    let f ← parseTrust f
+    let s ← parseTrust s
+    pure { transport := t, peer := p, first := f, second := s }
+  | _ => none
+
 def renderObs (o : Obs) : String :=
   if !o.initOk then "init-err"
   else
@@ -81,6 +113,15 @@ def opCell (a : List String) : String :=
   match parseCell a with
   | none => "bad-op"
   | some c => if !c.valid then "na" else renderObs (obsOf (session c))
+
+def opResume (a : List String) : String :=
+  match parseResume a with
+  | none => "bad-op"
+  | some r =>
+    if !r.valid then "na"
+    else
+      let o := resume r
+      renderObs (obsOf o.1) ++ " ; " ++ renderObs (obsOf o.2)
 
 /-- the caller's name-check hook: for which ServerNames it is installed and what it verifies -/
 def showHook (h : NameHook) : String :=
@@ -125,6 +166,19 @@ def chkCell (a : List String) : String :=
       | .na => "na"
       | .fails why => "fails " ++ why
 
+def chkResume (a : List String) : String :=
+  let (op, obs) := splitBar a
+  match parseResume op with
+  | none => "bad-op"
+  | some r =>
+    match parseObs (obs.takeWhile (· ≠ ";")), parseObs ((obs.dropWhile (· ≠ ";")).drop 1) with
+    | some oa, some ob =>
+      match holdsOnResume r oa ob with
+      | .holds => "holds"
+      | .na => "na"
+      | .fails why => "fails " ++ why
+    | _, _ => if !r.valid then "na" else "fails malformed-observation"
+
 def dispatch (line : String) : String :=
   match fields line with
   | [] => "skip"
@@ -133,11 +187,13 @@ def dispatch (line : String) : String :=
     else if e == "tls" then
       match args with
       | "cell" :: rest => opCell rest
+      | "resume" :: rest => opResume rest
       | ["facts"] => opFacts
       | _ => "bad-op"
     else if e == "chk" then
       match args with
       | "tls" :: "cell" :: rest => chkCell rest
+      | "tls" :: "resume" :: rest => chkResume rest
       | _ => "na"
     else "bad-op"
 
